@@ -375,7 +375,7 @@ class Body:
         return False
 
 
-PURE_NAMES = {'len', 'is_empty', 'size_of', 'align_of', 'min', 'max', 'unwrap_or', 'from', 'into', 'try_from', 'try_into',
+PURE_NAMES = {'split_at', 'split_first', 'split_last', 'first', 'last', 'get', 'len', 'is_empty', 'size_of', 'align_of', 'min', 'max', 'unwrap_or', 'from', 'into', 'try_from', 'try_into',
               'to_usize', 'encoded_fixed_size', 'elts', 'branch', 'leading_zeros', 'trailing_zeros', 'as_ref', 'as_slice',
               'as_bytes', 'deref', 'new', 'size', 'align', 'needs_drop', 'is_some', 'is_none', 'is_ok', 'is_err', 'iter',
               'into_iter', 'ok_or', 'ok', 'map_err', 'checked_add', 'checked_sub', 'checked_mul', 'checked_div',
